@@ -352,7 +352,7 @@ func (h H) installSnapshotHandler(rule string) {
 				iCC := evIndex(t, isCall("(*Raft).changeConfig"))
 				iCm := evIndex(t, isCall("(*Raft).commitConfig"))
 				ok := okNil && iSend > iClear && iCI > iClear && iCC > iClear && iCm > iCC
-				okVals := ok && strings.HasPrefix(t.Events[iCI].Args[1], "Raft.storage.snaps.index") && strings.HasSuffix(t.Events[iCC].Args[1], ".config")
+				okVals := ok && (strings.HasPrefix(t.Events[iCI].Args[1], "Raft.storage.snaps.index") || strings.HasPrefix(t.Events[iCI].Args[1], "ret:(*snapshots).latest")) && strings.HasSuffix(t.Events[iCC].Args[1], ".config")
 				h.C.Check(rule+" discard-path-complete", key, ok && okVals, t.ExitPos, "discarding the log must be followed by FSM restore, commitIndex := snapshot index, adoption and commit of the snapshot's configuration")
 			} else if iCompact >= 0 {
 				nKeep++
